@@ -33,7 +33,9 @@ def select(cases, tier, seed):
         if k in ("multi", "skip", "value"):
             continue            # C06 / C07 / C02
         if k == "enum_item":
-            if rng.random() < (1.0 if tier == "thorough" else 0.08):
+            # quick: every item at the oldest and the newest version (an item that is too new / deprecated shows at one of them),
+            # a sample of the versions in between
+            if tier == "thorough" or c["ver"] in (150, 171) or rng.random() < 0.08:
                 keep.append(c)
         elif tier == "thorough":
             keep.append(c)
